@@ -147,6 +147,16 @@ UNITS.update({
         "complete": "unbounded: every byte string / every public key object of either variant",
         "timeout": 900,
     },
+    "U-APPROX": {
+        "backend": "verus",
+        "template": "contracts/approx.vc",
+        "trusted": ["Verus 0.2026.09.13 / Z3; vstd",
+                    "D4: the two float-to-integer conversions floor(2^63 * v) as u64 are outside the verified text (uninterpreted function spec_scale63)"],
+        "assumption_lines": [r"external_body"],
+        "dropped": ["D4: f64::floor(x * 2^63) as u64 and f64::floor(2^63 * ccs) as u64 replaced by calls of an uninterpreted external function"],
+        "complete": "unbounded: every 63-bit z and every 64-bit scaled ccs",
+        "timeout": 600,
+    },
     "U-CODEC": {
         "backend": "verus",
         "template": "contracts/codec.vc",
@@ -271,5 +281,23 @@ PROPS.update({
 })
 
 PROPS["C06fast"] = dict(PROPS["C06"], quick=["U-PK", "U-SKF"])
+
+PROPS.update({
+    "C09": {
+        "title": "The integer Gaussian sampler is total and follows D_{Z,mu,sigma}",
+        "level": "other",
+        "quick": ["U-SAMP", "U-APPROX"],
+        "thorough": [],
+        "undecided_clauses": ["the output distribution of sampler_z (a probabilistic statement; follows from the three blocks by the specification's analysis, not by a contract)",
+                              "almost-sure termination of the rejection loop",
+                              "panic-freedom of the floating-point glue of sampler_z itself (f64 arithmetic; `z + (s as i16)` overflows for |mu| beyond the i16 range, F7)",
+                              "the lower bound approx_exp >= 1 on ber_exp's domain (assumed in ber_exp's harness) and the float-to-integer conversions"],
+        "assumptions": [],
+        "explanation": "Partial claim, proof-level for the integer building blocks only. base_sampler == BaseSampler (count of RCDT entries above u) on all 2^72 inputs (Kani, complete, table typed from the specification). approx_exp's integer recurrence == ApproxExp for every 63-bit z and every scaled ccs, with no under/overflow (Verus on the extracted text, constants checked against the specification's). ber_exp == BerExp whenever the 7 supplied bytes decide the comparison, and is panic-free otherwise EXCEPT the recorded finding F6 (7-byte tie). Distribution, termination and the floating-point glue are not decided.",
+        "level_text": "Partial: the three integer building blocks equal the specification's on every input (proof-level); the distribution-level statement is not claimed.",
+        "level_note": "Known finding F6 is reported as KNOWN-FINDING and does not fail the check; any other failing obligation does.",
+        "technique": "Kani full-domain contract harnesses (+ contract stub for approx_exp) and a Verus contract on the extracted integer core",
+    },
+})
 
 HOOK_COMMITS = ["f2e89fa"]
